@@ -46,8 +46,7 @@ loop 1
 
 // C29 "lookups of shards never seen before": Nonces() holds only RLock, so keys() must be a pure lookup.
 func (cache *headersCache) keys(shardId uint32) (r []uint64)
-  requires cache.headersNonceCache != nil
-  assigns nothing
+  assigns nothing      // F29 repaired: a plain lookup, no per-shard map is created for an unseen shard
 
 // ---- cache: writers (called under Lock) ----------------------------------------------------------------------------------
 func (cache *headersCache) getShardMap(shardId uint32) (m listOfHeadersByNonces)
